@@ -635,6 +635,10 @@ type Part[C any] struct {
 	Thorough int
 	Gen      func(t *rapid.T) C
 	Check    func(c C, o *Rec) Verdict
+	// Journal writes every case to disk before it is checked: for parts that execute code
+	// which can kill the process (stack overflow, fatal runtime errors), so that the driver
+	// can report the case a dead shard was executing.
+	Journal bool
 }
 
 // Run executes the part under rapid.
@@ -642,6 +646,9 @@ func (p Part[C]) Run(r *Run) {
 	r.Check(p.Name, p.Quick, p.Thorough, func(t *rapid.T, rec *Rec) {
 		c := p.Gen(t)
 		rec.Case(c)
+		if p.Journal {
+			rec.Journal()
+		}
 		v := p.Check(c, rec)
 		if v.Msg == "" {
 			return
